@@ -31,6 +31,7 @@ type JobCfg struct {
 type JobDef struct {
 	Harness string    `json:"harness"`
 	Params  [][]int64 `json:"params"` // per parameter [lo,hi] inclusive
+	Sets    [][]int64 `json:"sets"`   // alternative: per parameter an explicit value set
 	Tier    string    `json:"tier"`   // quick | thorough | both
 	Cfg     JobCfg    `json:"cfg"`
 	Note    string    `json:"note,omitempty"`
@@ -69,6 +70,20 @@ func expandParams(ranges [][]int64) [][]int64 {
 			for v := lo; v <= hi; v++ {
 				q := append(append([]int64{}, p...), v)
 				next = append(next, q)
+			}
+		}
+		out = next
+	}
+	return out
+}
+
+func expandSets(sets [][]int64) [][]int64 {
+	out := [][]int64{{}}
+	for _, set := range sets {
+		var next [][]int64
+		for _, p := range out {
+			for _, v := range set {
+				next = append(next, append(append([]int64{}, p...), v))
 			}
 		}
 		out = next
@@ -172,7 +187,11 @@ func cmdCheck(args []string) int {
 		if *only != "" && !strings.Contains(jd.Harness, *only) {
 			continue
 		}
-		for _, p := range expandParams(jd.Params) {
+		tuples := expandParams(jd.Params)
+		if len(jd.Sets) > 0 {
+			tuples = expandSets(jd.Sets)
+		}
+		for _, p := range tuples {
 			items = append(items, jobItem{def: jd, spec: JobSpec{Harness: jd.Harness, Params: p}})
 		}
 	}
